@@ -536,3 +536,5 @@ def check(run, prog):
            calls[0].node if calls else main.node)
 
     rule_no_shrink_while_iterating(run, prog)
+    from .c07_directive_line import rule_directive_line
+    rule_directive_line(run, prog)           # R-7.5
